@@ -1,10 +1,11 @@
 (* Extraction of the configuration models (C16, C18). ExtrOcamlBasic only: bool, option, unit,
    list, prod, sumbool map to OCaml natives; N, Z, positive, nat stay inductive. No Extract Constant. *)
 From Coq Require Import NArith ZArith List.
-From SG Require Import Config.Toml Config.Merge Config.Extends Config.Remote.
+From SG Require Import Config.Toml Config.Merge Config.Extends Config.Remote Config.RemoteUrls.
 Require Extraction. Require Import ExtrOcamlBasic.
 Extraction Language OCaml.
 Extraction "../ocaml/gen/config_ex.ml"
   merge merge_arrays is_reset_element has_reset_marker strip has_any validate valid
   rm_ext finish finalize resolve_val load_top join_parent Build_fsys FUEL MAX
-  fetch run fetch_crash Build_step Build_centry TTL sorted_keys is_doc.
+  fetch run fetch_crash Build_step Build_centry TTL sorted_keys is_doc
+  fetch_url run_urls Build_ustep dir_get.
